@@ -18,6 +18,10 @@ STUBS = [
 ]
 
 FIELD_SENS = ["--max-field-sensitivity-array-size", "2048"]
+# store-level harnesses: DataError holds a std Backtrace whose drop glue (loops over frames / symbols) is
+# unreachable (Backtrace::capture is stubbed to a disabled backtrace) but not provably so for symex; bound it
+# by name instead of by the harness-wide unwind value. An unwinding assertion still guards the bound.
+STORE_ARGS = FIELD_SENS + ["--unwindset", "_RINvNtCs8xvirJzNMvV_4core3ptr9drop_glueSNtNtCs3GJ6w2eqr8A_3std9backtrace15BacktraceSymbolEBG_.0:1,_RINvNtCs8xvirJzNMvV_4core3ptr9drop_glueSNtNtCs3GJ6w2eqr8A_3std9backtrace14BacktraceFrameEBG_.0:1"]
 
 
 def H(name, group, tier="quick", desc="", **kw):
@@ -221,14 +225,14 @@ def _c16():
     }
 
 
-STORE_FRAMES = [H("store_basic_frames_%d" % k, "store", "thorough", "REAL BasicGarnishData (small blocks): %d register(s), frame x, %d register(s), frame y, %d register(s) (x, y symbolic); pop_frame returns y then x and restores the register depth of each call%s" % (k & 1, (k >> 1) & 1, (k >> 2) & 1, "; a call made from inside a call with an empty operand stack" if k & 3 == 0 else ""), cbmc_args=FIELD_SENS, timeout=1800, optional=True) for k in range(8)] + \
-               [H("store_basic_values_update", "store", "thorough", "REAL BasicGarnishData: value stack push / current / update in place / pop", cbmc_args=FIELD_SENS, timeout=1800, optional=True),
-                H("store_basic_values_plain", "store", "thorough", "REAL BasicGarnishData: value stack push / current / pop", cbmc_args=FIELD_SENS, timeout=1800, optional=True)]
-STORE_LISTS = [H("store_basic_list_p%d%s" % (o, u), "store", "thorough", "REAL BasicGarnishData: list of two pairs keyed by symbols 20 and 10 inserted in order %d%s: length, index access in insertion order, lookup of a SYMBOLIC symbol (sorted associations + binary search)" % (o, " followed by an unkeyed item" if u else ""), cbmc_args=FIELD_SENS, timeout=1800, optional=True) for o in range(2) for u in ("", "_unkeyed")] + \
-              [H("store_simple_list_%d" % k, "store", "thorough", "REAL SimpleGarnishData: a first list keyed by k0,k1, then a second list of %d items keyed by k2.. (all symbols symbolic u64): length, index access, lookup of a symbolic symbol in the second list (modulo placement + probing); no stale associations, no error, no panic on the empty list" % k, cbmc_args=FIELD_SENS, timeout=1800, optional=True) for k in range(3)] + \
-              [H("store_simple_list_unkeyed", "store", "thorough", "REAL SimpleGarnishData: lookup in a list holding an unkeyed item is 'absent', not an error", cbmc_args=FIELD_SENS, timeout=1800, optional=True),
-               H("store_basic_list_index_kf", "store", "thorough", "witness of the recorded finding: BasicGarnishData::get_list_item past the end is an Err", cbmc_args=FIELD_SENS, timeout=1800, optional=True)]
-STORE_READBACK = [H("store_basic_readback_x2", "store", "quick", "same interleaving with every block starting at size 1 and growing multiplicatively (x2): 1 -> 2 -> 4 -> 8", cbmc_args=FIELD_SENS, timeout=1500), H("store_basic_readback", "store", "quick", "REAL BasicGarnishData with data block of initial size 2 (+4 per growth) and 2-cell instruction / jump blocks: interleaved adds to all three tables across several growth steps; every value reads back with the same type and content", cbmc_args=FIELD_SENS)]
+STORE_FRAMES = [H("store_basic_frames_%d" % k, "store", "thorough", "REAL BasicGarnishData (small blocks): %d register(s), frame x, %d register(s), frame y, %d register(s) (x, y symbolic); pop_frame returns y then x and restores the register depth of each call%s" % (k & 1, (k >> 1) & 1, (k >> 2) & 1, "; a call made from inside a call with an empty operand stack" if k & 3 == 0 else ""), cbmc_args=STORE_ARGS, timeout=1800, optional=True) for k in range(8)] + \
+               [H("store_basic_values_update", "store", "thorough", "REAL BasicGarnishData: value stack push / current / update in place / pop", cbmc_args=STORE_ARGS, timeout=1800, optional=True),
+                H("store_basic_values_plain", "store", "thorough", "REAL BasicGarnishData: value stack push / current / pop", cbmc_args=STORE_ARGS, timeout=1800, optional=True)]
+STORE_LISTS = [H("store_basic_list_p%d%s" % (o, u), "store", "thorough", "REAL BasicGarnishData: list of two pairs keyed by symbols 20 and 10 inserted in order %d%s: length, index access in insertion order, lookup of a SYMBOLIC symbol (sorted associations + binary search)" % (o, " followed by an unkeyed item" if u else ""), cbmc_args=STORE_ARGS, timeout=1800, optional=True) for o in range(2) for u in ("", "_unkeyed")] + \
+              [H("store_simple_list_%d" % k, "store", "thorough", "REAL SimpleGarnishData: a first list keyed by k0,k1, then a second list of %d items keyed by k2.. (all symbols symbolic u64): length, index access, lookup of a symbolic symbol in the second list (modulo placement + probing); no stale associations, no error, no panic on the empty list" % k, cbmc_args=STORE_ARGS, timeout=1800, optional=True) for k in range(3)] + \
+              [H("store_simple_list_unkeyed", "store", "thorough", "REAL SimpleGarnishData: lookup in a list holding an unkeyed item is 'absent', not an error", cbmc_args=STORE_ARGS, timeout=1800, optional=True),
+               H("store_basic_list_index_kf", "store", "thorough", "witness of the recorded finding: BasicGarnishData::get_list_item past the end is an Err", cbmc_args=STORE_ARGS, timeout=1800, optional=True)]
+STORE_READBACK = [H("store_basic_readback_x2", "store", "quick", "same interleaving with every block starting at size 1 and growing multiplicatively (x2): 1 -> 2 -> 4 -> 8", cbmc_args=STORE_ARGS, timeout=1500), H("store_basic_readback", "store", "quick", "REAL BasicGarnishData with data block of initial size 2 (+4 per growth) and 2-cell instruction / jump blocks: interleaved adds to all three tables across several growth steps; every value reads back with the same type and content", cbmc_args=STORE_ARGS)]
 
 
 def _c15():
